@@ -309,6 +309,17 @@ OPS = {
 }
 
 
+def register(name, fn):
+    if name in OPS and OPS[name] is not fn:
+        raise RuntimeError("operation %r registered twice" % name)
+    OPS[name] = fn
+
+
+def _reg_all(d):
+    for name, fn in d.items():
+        register(name, fn)
+
+
 def _b(x):
     return "1" if x else "0"
 
@@ -386,7 +397,7 @@ def op_dtoweeks(t):
     return sh_dur(rd_dur(t).to_weeks())
 
 
-OPS.update({
+_reg_all({
     "dadd": op_dadd, "dsub": op_dsub, "dmul": op_dmul,
     "dfloordiv": op_dfloordiv, "dabs": op_dabs, "deq": op_deq,
     "dcmp": op_dcmp, "dhash": op_dhash, "dbool": op_dbool,
@@ -457,7 +468,7 @@ def op_tounix(t):
     return rd_tp(t).seconds_since_unix_epoch
 
 
-OPS.update({"localtz": op_localtz, "localfmt": op_localfmt,
+_reg_all({"localtz": op_localtz, "localfmt": op_localfmt,
             "fromunix": op_fromunix, "tounix": op_tounix})
 
 
@@ -482,7 +493,7 @@ def op_localtz_os(t):
         real.tzset()
 
 
-OPS["localtz_os"] = op_localtz_os
+register("localtz_os", op_localtz_os)
 
 
 def to_kind(p, k):
@@ -552,7 +563,7 @@ def op_toutc(t):
     return sh_tp(rd_tp(t).to_utc())
 
 
-OPS.update({"pair": op_pair, "addsub": op_addsub, "tolocal": op_tolocal,
+_reg_all({"pair": op_pair, "addsub": op_addsub, "tolocal": op_tolocal,
             "toutc": op_toutc})
 
 
@@ -581,7 +592,7 @@ def op_addsteps(t):
     return sh_tp(p)
 
 
-OPS.update({"addstaged": op_addstaged, "addmonths": op_addmonths,
+_reg_all({"addstaged": op_addstaged, "addmonths": op_addmonths,
             "addsteps": op_addsteps})
 
 
@@ -646,7 +657,7 @@ def op_rquery(t):
     return " ; ".join(out)
 
 
-def op_radd(t):
+def op_recadd(t):
     _md(t)
     r = rd_rec(t)
     d = rd_dur(t)
@@ -689,7 +700,7 @@ def op_rtext(t):
         _b(str(r2) == text))
 
 
-OPS.update({"rmake": op_rmake, "rquery": op_rquery, "radd": op_radd,
+_reg_all({"rmake": op_rmake, "rquery": op_rquery, "recadd": op_recadd,
             "req": op_req, "rtext": op_rtext})
 
 
@@ -715,7 +726,7 @@ def op_tadd(t):
     return "%s ; %s" % (sh_tp(r1), sh_tp(tr + r1))
 
 
-OPS["tadd"] = op_tadd
+register("tadd", op_tadd)
 
 
 def eval_line(line, timeout=10):
@@ -742,10 +753,6 @@ def eval_line(line, timeout=10):
         return "EXC " + type(exc).__name__
     finally:
         signal.alarm(0)
-
-
-def register(name, fn):
-    OPS[name] = fn
 
 
 if __name__ == "__main__":
